@@ -11,3 +11,5 @@ import Juniper.Props.C06
 import Juniper.Props.C11
 import Juniper.Props.C16
 import Juniper.Props.C18
+import Juniper.Props.C20
+import Juniper.Props.C17
